@@ -150,6 +150,10 @@ PROPS = {
              "bound": "one call of sort_new_items on a file with 1 module: 2 placed + 1 new UNIT, 1 placed + 1 new COMPU_METHOD, arbitrary distinct ids < 2^31", "timeout": 240},
             {"engine": "E2", "module": "sort", "harness": "h_sort_new_optional_items", "functions": ["sort::sort_new_items", "sort::sort_optional_item"],
              "bound": "MOD_COMMON / MOD_PAR present or not with arbitrary ids < 2^31", "timeout": 120},
+            {"engine": "E2", "module": "sort", "harness": "h_sort_new_unnamed_lists_s", "functions": ["sort::sort_new_items"],
+             "bound": "one call on a module with <= 2 IF_DATA and <= 1 USER_RIGHTS (each placed with an arbitrary distinct id < 2^31 or new, in any Vec order) and one placed UNIT", "timeout": 300, "must_cover": ["full unnamed lists"]},
+            {"engine": "E2", "module": "sort", "harness": "h_sort_new_unnamed_lists", "functions": ["sort::sort_new_items"], "quick": False,
+             "bound": "one call on a module with <= 3 IF_DATA and <= 2 USER_RIGHTS (each placed with an arbitrary distinct id < 2^31 or new, in any Vec order) and one placed UNIT", "timeout": 400, "must_cover": ["full unnamed lists"]},
         ],
     },
     "C14": {
@@ -162,7 +166,9 @@ PROPS = {
             {"engine": "E2", "module": "sort", "harness": "h_sort_module", "functions": ["sort::sort", "sort::sort_objectlist_full"],
              "bound": "file with one module: 2 UNITs (symbolic name order), 1 COMPU_METHOD, optional MOD_PAR; sort applied twice", "timeout": 240},
             {"engine": "E2", "module": "lib", "harness": "h_sort_all_kinds", "functions": ["A2lFile::sort", "sort::sort", "sort::sort_objectlist_full", "A2lFile::write_to_string", "writer::Writer::add_group", "writer::Writer::sort_function", "load_from_string"],
-             "bound": "one module with two elements in each of the 20 lists, written in reverse canonical and reverse alphabetical order; sort, write, reload, write, sort again", "timeout": 300, "extra_modules": ["tokenizer"]},
+             "bound": "one module with two elements in each of the 20 named lists, three USER_RIGHTS, two IF_DATA, A2ML, MOD_COMMON, MOD_PAR, VARIANT_CODING, written in reverse canonical and reverse alphabetical order (A2ML in front of the IF_DATA blocks: see known finding D21); sort, write, reload, write, sort again", "timeout": 300, "extra_modules": ["tokenizer"], "max_steps": 30000000},
+            {"engine": "E2", "module": "lib", "harness": "h_sort_a2ml_after_ifdata_known_d21", "known": "D21", "functions": ["A2lFile::sort", "load_from_string", "A2lFile::write_to_string"],
+             "bound": "the recorded input of known finding D21", "timeout": 200, "extra_modules": ["tokenizer"]},
         ],
     },
     "C02": {
